@@ -642,6 +642,33 @@ def rule_r8(repo, run):
                           "per name, so the user's code for the block is put into every one of them - bodies of different "
                           "functions" % (len(calls), q, name_, [c.lineno for c in calls]), m.loc(calls[1]))
     run.floor(R, "named blocks with a constant name", nd, 30)
+    # a pop always pops: the placeholder level of a namespace is renamed by _update_splicer_top, so the name given to
+    # _pop_splicer need not be the name on the stack - a pop that is skipped leaves every later block one level too deep
+    um_ = repo.module("util")
+    pp = um_.func("WrapperMixin._pop_splicer")
+    pops = [c for c in ast.walk(pp) if isinstance(c, ast.Call) and isinstance(c.func, ast.Attribute) and c.func.attr == "pop"
+            and "splicer_" in um_.seg(c.func.value)]
+    cond = [c for c in pops if pyflow.path_atoms(c, stop=pp, seg=um_.seg) or pyflow.early_exit_guards(pp, c)]
+    run.check(R, "util.WrapperMixin._pop_splicer:unconditional", len(pops) == 2 and not cond,
+              "_pop_splicer pops the level and its name only under a condition (%s): a pop whose name differs from the stack top "
+              "(the renamed namespace placeholder) is skipped and the library-level blocks are looked up under the namespace"
+              % [sorted(pyflow.path_atoms(c, stop=pp, seg=um_.seg)) or "after an early return" for c in cond][:1], um_.loc(pp))
+    # the emitters that give a namespace file its own block level do so after the child namespaces are done: a child
+    # replaces the top level with its own name
+    ne = 0
+    for mn, q in (("wrapc", "Wrapc.wrap_namespace"), ("wrapp", "Wrapp.wrap_namespace")):
+        m = repo.module(mn)
+        fn = m.func(q)
+        ups = [c for c in ast.walk(fn) if isinstance(c, ast.Call) and (pyflow.call_name(c) or "") == "self._update_splicer_top"
+               and "node." in m.seg(c)]
+        recs = [c for c in ast.walk(fn) if isinstance(c, ast.Call) and (pyflow.call_name(c) or "") == "self.wrap_namespace"]
+        if not ups or not recs:
+            raise AnalysisError("C12.R8: %s: own-level rename or recursion not found" % q)
+        ne += 1
+        run.check(R, "%s.%s:own-level-after-children" % (mn, q), max(c.lineno for c in recs) < min(c.lineno for c in ups),
+                  "the namespace's own block level is set before the child namespaces are wrapped: each child renames the top "
+                  "level, so the blocks of `outer` are afterwards looked up (and named) as `outer::inner`, and the user's code "
+                  "for outer::inner::f is spliced into outer::f", m.loc(ups[0]))
     # _update_splicer_top(name) == _pop_splicer(); _push_splicer(name)
     um = repo.module("util")
     up = um.func("WrapperMixin._update_splicer_top")
